@@ -400,7 +400,7 @@ def obligations(tier, seed):
         k += 1
         out.append({"family": "shuffle", "base": base, "size": size, "p": p, "by_order": bool(k & 1),
                     "preserve": bool(k & 2), "with_seed": bool(k & 4)})
-    for base, p in (("tt", "half"), ("t", "zero"), ("a", "zero"), ("s", "one")) + (() if q else (("t3", "one"), ("t", "one"))):
+    for base, p in (("tt", "half"), ("t", "zero"), ("a", "zero"), ("s", "one"), ("t3", "half"), ("t", "half")) + (() if q else (("t3", "one"), ("t", "one"))):
         out.append({"family": "shuffle_all", "base": base, "p": p})
     for N, T, orders in ((2, 1, [1, 2]), (3, 1, [1]), (3, 1, [2]), (2, 2, [1]), (1, 1, [1]), (1, 1, [2]), (3, 0, [1])):
         out.append({"family": "hoad", "N": N, "T": T, "orders": orders})
